@@ -9,6 +9,9 @@ x $XONSH_CACHE_SCRIPTS x $XONSH_CACHE_EVERYTHING.  Time is a logical clock writt
 (edit = +2 ticks, a cache file written by a run gets the current tick).  rewrite-header keeps the
 entry's mtime and also swaps the payload for a loadable code object printing a tell-tale marker, so
 that "never executed" is observable (and no real foreign bytecode is ever at risk of being run).
+Cache files are located BY EFFECT (one probing cache-on run per unit into an empty directory), never
+by re-deriving xonsh's naming: units (script / (code string, mode)) that land in one file are one
+shared model entry, so a scheme that lets modes or code strings share an entry is judged behaviourally.
 Oracle on every run: (stdout, recorded alias calls, user exception, new namespace entries, escaping
 exception) equals the UNCACHED run (all switches off, empty data dir, fresh namespace) of the source
 as it is on disk at that moment; a foreign-version entry is never executed, never fatal and - where
@@ -418,6 +421,7 @@ def run(ctx):
         level_sizes=r["level_sizes"],
         history_transitions=r["transitions"],
         alphabet=len(h.events),
+        cache_entries_discovered_by_effect=h.entries,
         run_events_in_alphabet=runs,
         switch_combinations=len(ALL_SW),
         fault_part=p2["summary"],
